@@ -264,9 +264,13 @@ func run(c *runner.Ctx) {
 	n := len(menu)
 	b3, b4 := 1, 1
 	if c.Thorough() {
-		b3, b4 = 2, 1
+		b3, b4 = 2, 2
 	}
-	for l := 1; l <= 3; l++ {
+	maxL := 3
+	if c.Thorough() {
+		maxL = 4
+	}
+	for l := 1; l <= maxL; l++ {
 		c.Space(fmt.Sprintf("sequences-len%d", l))
 		seq := make([]int, l)
 		total := 1
@@ -285,6 +289,9 @@ func run(c *runner.Ctx) {
 			bd := b3
 			if l <= 2 {
 				bd = 2
+			}
+			if l >= 4 {
+				bd = 1
 			}
 			explore(append([]int{}, seq...), bd)
 		}
@@ -323,7 +330,7 @@ func main() {
 		Property:  "C12",
 		Technique: "all call sequences/permutations up to a depth, single-threaded under the controlled scheduler with every sync.Pool.Get answer enumerated (deviation-bounded); fresh-state oracle + aliasing re-reads",
 		Rule: "14 heterogeneous calls (struct with default tag / tag b / per-call rules / per-call functions, group rules over a slice, Var with quoted rules, Map, Url, a call returning before validation, splitter, builder+extractor); " +
-			"all sequences of length<=3 and all permutations of 4-subsets; per sequence every Pool.Get answer (top / other pooled object / New) within the deviation bound; per call: result = fresh-state result (= model for struct calls), " +
+			"all sequences of length<=3 (thorough: <=4) and all permutations of 4-subsets; per sequence every Pool.Get answer (top / other pooled object / New) within the deviation bound; per call: result = fresh-state result (= model for struct calls), " +
 			"arguments deep-equal to a fresh copy, every previously handed-out error string / rule token re-compared with its detached copy; transitions = scheduling steps; states = distinct result vectors; non-trivial = sequences of >=2 calls",
 		Assumptions: []string{"pool answers are owned by the scheduler shim (sync.Pool replaced through the build overlay)", "global type cache fresh per execution (delegating CacheEr)"},
 		Run:         run,
